@@ -9,6 +9,7 @@ import (
 	"path/filepath"
 	"sort"
 	"strings"
+	"time"
 
 	"github.com/cloudwego/thriftgo/parser"
 	"github.com/cloudwego/thriftgo/plugin"
@@ -30,6 +31,7 @@ type harness struct {
 	plug     string
 	variants map[string]string // thriftgo version recorded in the build info -> c11plugin binary
 	nprog    int
+	baseline time.Duration // the slowest faultless thriftgo run seen so far (load of the machine)
 }
 
 func fnv(s string) uint64 {
@@ -420,8 +422,8 @@ func (h *harness) shrinkValue(c codec, v *values.Value) *values.Value {
 	for progress := true; progress && budget > 0; {
 		progress = false
 		type slot struct {
-			v      *values.Value
-			nilOK  bool // nil is inside the property's domain here (optional member, container, binary)
+			v     *values.Value
+			nilOK bool // nil is inside the property's domain here (optional member, container, binary)
 		}
 		var slots []slot
 		var collect func(x *values.Value, ty *c11lib.Ty, optional bool)
